@@ -700,7 +700,10 @@ def _program_case(ctx, block, fn, greek, tree, model, pricer, src, xname, vname,
             out = fn(pricer, **kwargs_for(grp))
         except RuntimeError as e:
             ctx.tick(len(grp))
-            if zero and ("not have been used in the graph" in str(e) or "does not require grad" in str(e)):
+            # identically zero: proved by sympy, or (when simplify() cannot prove it) zero to 30 digits at
+            # every point of the grid
+            if (zero or all(exp[p][0] == 0.0 for p in sel)) and \
+                    ("not have been used in the graph" in str(e) or "does not require grad" in str(e)):
                 ctx.violation(site, "identically_zero_greek_raises",
                               desc + f": the {greek} is identically 0 but RuntimeError is raised: {str(e)[:90]}",
                               observed=f"RuntimeError: {str(e)[:200]}", expected=0.0, block=mini(grp[0]))
